@@ -14,7 +14,14 @@ lookups TABLE[key][k] with `key` a declared row parameter, calls to other transl
 `numpy.where(a <cmp> b, x, y)` with one comparison `== != <= >=` [-> `if … then x else y`; equality is rendered
 through `≤` both ways, which is IEEE `==` at Float (false on NaN) and `=` on a linear order; the definition and
 every translated function calling it then also take `[LE K] [DecidableLE K]`]).
-Anything else raises TranslateError: the caller treats that as "tie broken", never as a pass.
+Idioms of ordinary maintenance are followed too (added after the false-alarm campaign, DESIGN §7): module-level scalar constants
+(inlined), calls to other module-level helper functions (translated on demand, parameter kinds taken from the call site),
+array-valued locals (`w = cn2*z**p; return w.sum(axis)`), a comparison bound to a local and used as the condition of `numpy.where`,
+`a, b, c = TABLE[row]`, `numpy.asarray/asanyarray/array(x, …)` [identity], and statements that cannot change the returned value
+of an in-domain call: `if …: raise …` guards, calls of validators (functions that only raise), `if isinstance(x, (list, tuple)):
+x = numpy.asarray(x)` conversions.  These skips are recorded in the meta data (`skipped`).
+Anything else raises TranslateError: the caller then falls back to the committed reference model and ties it to the code by
+correspondence (harness/t1check.py); it is never silently a pass.
 """
 import ast
 import json
@@ -77,7 +84,7 @@ SPEC = [
 UNARY_FUNCS = {"sqrt": "Transc.sqrt", "exp": "Transc.exp", "log10": "Transc.log10",
                "abs": "Transc.abs", "cos": "Transc.cos", "sin": "Transc.sin", "gamma": "Transc.gamma",
                "absolute": "Transc.abs"}
-IDENTITY_FUNCS = {"float", "float32", "float64"}
+IDENTITY_FUNCS = {"float", "float32", "float64", "asarray", "asanyarray", "array", "ascontiguousarray"}
 ORDERED = set()     # lean names of the definitions that take [LE K] [DecidableLE K] (filled by translate())
 
 
@@ -99,7 +106,7 @@ def lit(v):
 
 
 class FuncTranslator:
-    def __init__(self, modinfo, fname, fdef, opts, known, tables):
+    def __init__(self, modinfo, fname, fdef, opts, known, tables, ctx=None):
         self.modinfo, self.fname, self.fdef, self.opts = modinfo, fname, fdef, opts
         self.known = known          # python name -> (lean name, [(param, kind, default_ast)])
         self.tables = tables
@@ -107,6 +114,9 @@ class FuncTranslator:
         self.locals = set()
         self.in_sum = False
         self.ordered = False        # uses a comparison (directly or through a translated callee)
+        self.ctx = ctx              # ModuleContext: module constants, all function definitions, helper translation
+        self.bool_locals = {}       # local name -> ast.Compare (a mask computed once and used in numpy.where)
+        self.skipped = []           # statements skipped because they cannot change the value returned for in-domain input
 
     # ---- expressions
     def tail(self, node):
@@ -129,6 +139,8 @@ class FuncTranslator:
                 return "(%s i)" % e.id
             if k in ("vec2", "row", "drop"):
                 raise TranslateError("%s param %s used as a scalar" % (k, e.id))
+            if e.id not in self.param_names() and self.ctx is not None and e.id in self.ctx.constants:
+                return ConstTranslator(self.ctx).expr(self.ctx.constants[e.id])     # module-level scalar constant, inlined
             return e.id
         if isinstance(e, ast.Attribute):
             if e.attr == "pi":
@@ -179,6 +191,8 @@ class FuncTranslator:
 
     def compare(self, c):
         """a single comparison `a <op> b` as a decidable proposition over `[LE K] [DecidableLE K]`"""
+        if isinstance(c, ast.Name) and c.id in self.bool_locals:
+            c = self.bool_locals[c.id]
         if not (isinstance(c, ast.Compare) and len(c.ops) == 1 and len(c.comparators) == 1):
             raise TranslateError("condition of numpy.where must be a single comparison")
         a, b = self.expr(c.left), self.expr(c.comparators[0])
@@ -212,12 +226,29 @@ class FuncTranslator:
         name = self.tail(f)
         if name == "where" and isinstance(f, ast.Attribute) and len(e.args) == 3 and not e.keywords:
             return "(if %s then %s else %s)" % (self.compare(e.args[0]), self.expr(e.args[1]), self.expr(e.args[2]))
-        if name in IDENTITY_FUNCS and len(e.args) == 1 and not e.keywords:
+        if name in IDENTITY_FUNCS and len(e.args) == 1 and (not e.keywords or name not in ("float", "float32", "float64")):
             return self.expr(e.args[0])
         if name in UNARY_FUNCS and len(e.args) == 1 and not e.keywords:
             return "(%s %s)" % (UNARY_FUNCS[name], self.expr(e.args[0]))
+        if name == "hypot" and len(e.args) == 2 and not e.keywords:
+            return "(Transc.sqrt ((%s ^ (2 : Nat)) + (%s ^ (2 : Nat))))" % (self.expr(e.args[0]), self.expr(e.args[1]))
         if name == "kv" and len(e.args) == 2 and not e.keywords:
             return "(Transc.kv %s %s)" % (self.expr(e.args[0]), self.expr(e.args[1]))
+        if isinstance(f, ast.Name) and name not in self.known and self.ctx is not None and name in self.ctx.fdefs:
+            # a module-level helper that is not in SPEC: translate it on demand, parameter kinds from this call site
+            hdef = self.ctx.fdefs[name]
+            hp = [a.arg for a in hdef.args.args]
+            site = {}
+            for pn, a in zip(hp, e.args):
+                site[pn] = a
+            for kw in e.keywords:
+                site[kw.arg] = kw.value
+            hk = {}
+            for pn, a in site.items():
+                if isinstance(a, ast.Name) and self.kinds.get(a.id) in ("array", "vec2", "row", "drop"):
+                    hk[pn] = self.kinds[a.id]
+            self.known = dict(self.known)
+            self.known[name] = self.ctx.helper(name, hk, self)
         if isinstance(f, ast.Name) and name in self.known:
             lean_name, params = self.known[name]
             if lean_name in ORDERED:
@@ -249,6 +280,54 @@ class FuncTranslator:
             return "(%s %s%s)" % (lean_name, "n " if needs_n else "", " ".join(out))
         raise TranslateError("call to %s" % (name,))
 
+    def param_names(self):
+        if "extract" in self.opts:
+            return set(self.opts["params"])
+        return {a.arg for a in self.fdef.args.args}
+
+    def uses_array(self, node):
+        """an array-kind name occurs in `node` outside `.sum(...)` and not as a direct argument of a module-level function"""
+        def walk(n):
+            if isinstance(n, ast.Call) and isinstance(n.func, ast.Attribute) and n.func.attr == "sum":
+                return False
+            if isinstance(n, ast.Call) and isinstance(n.func, ast.Name) and (n.func.id in self.known or
+                                                                            (self.ctx is not None and n.func.id in self.ctx.fdefs)):
+                rest = [a for a in n.args if not isinstance(a, ast.Name)] + [k.value for k in n.keywords if not isinstance(k.value, ast.Name)]
+                return any(walk(a) for a in rest)
+            if isinstance(n, ast.Name):
+                return self.kinds.get(n.id) == "array"
+            return any(walk(c) for c in ast.iter_child_nodes(n))
+        return walk(node)
+
+    def only_raises(self, stmts):
+        return all(isinstance(x, ast.Raise) or (isinstance(x, ast.Expr) and isinstance(x.value, ast.Constant)) for x in stmts) and \
+            any(isinstance(x, ast.Raise) for x in stmts)
+
+    def is_conversion(self, st):
+        """`x = numpy.asarray(x, …)` (same name on both sides)"""
+        return isinstance(st, ast.Assign) and len(st.targets) == 1 and isinstance(st.targets[0], ast.Name) and \
+            isinstance(st.value, ast.Call) and self.tail(st.value.func) in ("asarray", "asanyarray", "array", "ascontiguousarray") and \
+            len(st.value.args) >= 1 and isinstance(st.value.args[0], ast.Name) and st.value.args[0].id == st.targets[0].id
+
+    def is_validator_call(self, st):
+        """`check(...)` with the result dropped, where `check` is a module-level function that only raises"""
+        if not (isinstance(st, ast.Expr) and isinstance(st.value, ast.Call) and isinstance(st.value.func, ast.Name)):
+            return False
+        g = self.ctx.fdefs.get(st.value.func.id) if self.ctx is not None else None
+        if g is None:
+            return False
+        for n in ast.walk(g):
+            if isinstance(n, (ast.Global, ast.Nonlocal, ast.Yield, ast.YieldFrom, ast.AugAssign)):
+                return False
+            if isinstance(n, ast.Return) and n.value is not None and not (isinstance(n.value, ast.Constant) and n.value.value is None):
+                return False
+            if isinstance(n, ast.Assign) and not all(isinstance(t, ast.Name) for t in n.targets):
+                return False
+            if isinstance(n, ast.Call) and isinstance(n.func, ast.Attribute) and n.func.attr in (
+                    "append", "extend", "sort", "fill", "update", "pop", "clear", "setdefault", "resize", "put", "itemset"):
+                return False
+        return any(isinstance(n, ast.Raise) for n in ast.walk(g))
+
     # ---- statements
     def body(self):
         lines = []
@@ -260,8 +339,45 @@ class FuncTranslator:
                 continue  # docstring
             if extract:
                 continue
+            # statements that cannot change the value returned for in-domain input
+            if isinstance(st, ast.If) and not st.orelse and self.only_raises(st.body):
+                self.skipped.append("guard: if %s: raise" % ast.unparse(st.test)[:120])
+                continue
+            if isinstance(st, ast.If) and not st.orelse and all(self.is_conversion(x) for x in st.body) and \
+                    isinstance(st.test, (ast.Call, ast.UnaryOp)) and "isinstance" in ast.unparse(st.test):
+                self.skipped.append("conversion: if %s: %s" % (ast.unparse(st.test)[:80], "; ".join(ast.unparse(x) for x in st.body)[:120]))
+                continue
+            if self.is_validator_call(st):
+                self.skipped.append("validator call: %s" % ast.unparse(st)[:120])
+                continue
+            if self.is_conversion(st) and self.kinds.get(st.targets[0].id, "scalar") in ("scalar", "array"):
+                self.skipped.append("conversion: %s" % ast.unparse(st)[:120])
+                continue
+            # a, b, c = TABLE[row]
+            if isinstance(st, ast.Assign) and len(st.targets) == 1 and isinstance(st.targets[0], ast.Tuple) and \
+                    isinstance(st.value, ast.Subscript) and isinstance(st.value.value, ast.Name) and st.value.value.id in self.tables and \
+                    isinstance(st.value.slice, ast.Name) and self.kinds.get(st.value.slice.id) == "row" and \
+                    len(st.targets[0].elts) == 3 and all(isinstance(x, ast.Name) for x in st.targets[0].elts):
+                for k, x in enumerate(st.targets[0].elts):
+                    if x.id != "_":
+                        lines.append("let %s : K := %s_%d" % (x.id, st.value.slice.id, k))
+                        self.locals.add(x.id)
+                continue
             if isinstance(st, ast.Assign) and len(st.targets) == 1 and isinstance(st.targets[0], ast.Name):
                 t = st.targets[0].id
+                if isinstance(st.value, ast.Compare):
+                    self.bool_locals[t] = st.value          # a mask: used as the condition of numpy.where
+                    continue
+                if self.uses_array(st.value):
+                    # an array-valued local: w = cn2*z**p  ->  let w : Nat → K := fun i => cn2 i * …
+                    self.in_sum = True
+                    try:
+                        rhs = self.expr(st.value)
+                    finally:
+                        self.in_sum = False
+                    lines.append("let %s : Nat → K := fun i => %s" % (t, rhs))
+                    self.kinds[t] = "array"
+                    continue
                 rhs = self.expr(st.value)
                 lines.append("let %s : K := %s" % (t, rhs))
                 self.locals.add(t)
@@ -295,6 +411,92 @@ class FuncTranslator:
         if ret is None:
             raise TranslateError("no return in %s" % self.fname)
         return lines, ret
+
+
+class ConstTranslator(FuncTranslator):
+    """expressions of module-level constants: literals, numpy.pi, arithmetic, other module constants"""
+    def __init__(self, ctx):
+        self.ctx, self.kinds, self.locals, self.in_sum, self.ordered = ctx, {}, set(), False, False
+        self.known, self.tables, self.opts, self.bool_locals, self.skipped = {}, set(), {"extract": None, "params": []}, {}, []
+
+    def param_names(self):
+        return set()
+
+    def expr(self, e):
+        if isinstance(e, ast.Name) and e.id not in self.ctx.constants:
+            raise TranslateError("module constant refers to %s" % e.id)
+        return FuncTranslator.expr(self, e)
+
+
+class ModuleContext:
+    def __init__(self, mod, tree, known, tables):
+        self.mod, self.known, self.tables = mod, known, tables
+        self.fdefs = {st.name: st for st in tree.body if isinstance(st, ast.FunctionDef)}
+        self.constants = {}
+        for st in tree.body:
+            if isinstance(st, ast.Assign) and len(st.targets) == 1 and isinstance(st.targets[0], ast.Name) \
+                    and st.targets[0].id not in tables and not isinstance(st.value, (ast.Dict, ast.List, ast.Tuple, ast.Set)):
+                self.constants[st.targets[0].id] = st.value
+        self.helpers = {}      # (name, kinds) -> (lean_name, params)
+        self.helper_defs = []  # emitted Lean source, in dependency order
+        self.helper_meta = {}
+        self.stack = []
+
+    def helper(self, name, kinds, caller):
+        key = (name, tuple(sorted(kinds.items())))
+        if key in self.helpers:
+            lean_name, params, ordered = self.helpers[key]
+            if ordered:
+                caller.ordered = True
+            return lean_name, params
+        if name in self.stack or len(self.stack) > 6:
+            raise TranslateError("recursive helper %s" % name)
+        fdef = self.fdefs[name]
+        a = fdef.args
+        if a.vararg or a.kwarg or a.kwonlyargs or a.posonlyargs:
+            raise TranslateError("signature of helper %s" % name)
+        defaults = [None] * (len(a.args) - len(a.defaults)) + list(a.defaults)
+        params = [(p.arg, kinds.get(p.arg, "scalar"), d) for p, d in zip(a.args, defaults)]
+        tag = "".join("_%s%s" % (k[0], p) for p, k in sorted(kinds.items())) if kinds else ""
+        lean_name = "%saux_%s%s" % (self.mod.get("prefix", ""), name.lstrip("_"), tag)
+        self.stack.append(name)
+        try:
+            ft = FuncTranslator(self.mod, name, fdef, {"kinds": dict(kinds)}, self.known, set(self.tables), ctx=self)
+            lines, ret = ft.body()
+        finally:
+            self.stack.pop()
+        if ft.ordered:
+            ORDERED.add(lean_name)
+            caller.ordered = True
+        self.helper_defs.append(render_def(self.mod, name, fdef, lean_name, params, ft, lines, ret)[0])
+        self.helpers[key] = (lean_name, params, ft.ordered)
+        return lean_name, params
+
+
+def render_def(mod, fn, fdef, lean_name, params, ft, lines, ret):
+    sig, layout = [], []
+    needs_n = any(k == "array" for (_, k, _) in params)
+    if ft.ordered:
+        sig.append("[LE K] [DecidableLE K]")
+    if needs_n:
+        sig.append("(n : Nat)")
+    for (p, kind, _) in params:
+        if kind == "scalar":
+            sig.append("(%s : K)" % p)
+            layout.append([p, "scalar"])
+        elif kind == "array":
+            sig.append("(%s : Nat → K)" % p)
+            layout.append([p, "array"])
+        elif kind == "vec2":
+            sig.append("(%s_0 %s_1 : K)" % (p, p))
+            layout.append([p, "vec2"])
+        elif kind == "row":
+            sig.append("(%s_0 %s_1 %s_2 : K)" % (p, p, p))
+            layout.append([p, "row"])
+    body = "".join("  %s\n" % l for l in lines) + "  " + ret
+    src = ("/-- generated from `%s:%s` (line %d) -/\ndef %s %s : K :=\n%s"
+           % (mod["module"], fn, fdef.lineno, lean_name, " ".join(sig), body))
+    return src, layout
 
 
 def module_tables(tree, names):
@@ -366,35 +568,21 @@ def translate(repo=REPO):
             order.append(fn)
         for fn in infos:
             visit(fn)
+        ctx = ModuleContext(mod, tree, known, tables)
         for fn in order:
             lean_name, params, fdef, opts = infos[fn]
-            ft = FuncTranslator(mod, fn, fdef, opts, known, set(tables))
+            ft = FuncTranslator(mod, fn, fdef, opts, known, set(tables), ctx=ctx)
+            n_helpers = len(ctx.helper_defs)
             lines, ret = ft.body()
-            sig, layout = [], []
-            needs_n = any(k == "array" for (_, k, _) in params)
+            defs.extend(ctx.helper_defs[n_helpers:])          # helpers this function needed, before it
             if ft.ordered:
                 ORDERED.add(lean_name)
-                sig.append("[LE K] [DecidableLE K]")
-            if needs_n:
-                sig.append("(n : Nat)")
-            for (p, kind, _) in params:
-                if kind == "scalar":
-                    sig.append("(%s : K)" % p)
-                    layout.append([p, "scalar"])
-                elif kind == "array":
-                    sig.append("(%s : Nat → K)" % p)
-                    layout.append([p, "array"])
-                elif kind == "vec2":
-                    sig.append("(%s_0 %s_1 : K)" % (p, p))
-                    layout.append([p, "vec2"])
-                elif kind == "row":
-                    sig.append("(%s_0 %s_1 %s_2 : K)" % (p, p, p))
-                    layout.append([p, "row"])
-            body = "".join("  %s\n" % l for l in lines) + "  " + ret
-            defs.append("/-- generated from `%s:%s` (line %d) -/\ndef %s %s : K :=\n%s"
-                        % (mod["module"], fn, fdef.lineno, lean_name, " ".join(sig), body))
+            src, layout = render_def(mod, fn, fdef, lean_name, params, ft, lines, ret)
+            defs.append(src)
             meta[lean_name] = {"module": mod["module"], "python": fn, "layout": layout,
                                "extract": opts.get("extract"), "line": fdef.lineno, "ordered": ft.ordered}
+            if ft.skipped:
+                meta[lean_name]["skipped"] = ft.skipped
     header = ("/- GENERATED by harness/translate_formulas.py from /repo on every run. DO NOT EDIT. -/\n"
               "import AoVerif.Model.Scalar\n\nnamespace AoVerif.Gen\n\n"
               "variable {K : Type} [Add K] [Sub K] [Mul K] [Div K] [Neg K] [NatCast K] [OfScientific K] [HPow K Nat K] [Transc K]\n\n")
